@@ -266,14 +266,13 @@ Qed.
 
 (* whatever happens or is disclosed, every addressed object was loaded under a grant *)
 Lemma effect_only_if_granted_l : forall P id s ph r out s' ph',
-  wf_identity id ->
   step_item P id (s, ph) r = (out, (s', ph')) ->
   s' <> s \/ ph' <> ph \/ passed out = true ->
   forall o op, addressed r ph s o op -> granted_spec P (o_pol o) id (o_owner o) (o_type o) op.
 Proof.
-  intros P id s ph r out s' ph' Hwf Hstep Heff o op Ha.
+  intros P id s ph r out s' ph' Hstep Heff o op Ha.
   destruct (allowed_obj P id op o) eqn:E.
-  - now apply decision_sound_partial_l.
+  - now apply decision_sound_l.
   - destruct (no_effect_without_grant_l _ _ _ _ _ _ _ Hstep _ _ Ha E) as [He [Hp _]].
     inversion He; subst. destruct Heff as [H|[H|H]]; [now elim H|now elim H|congruence].
 Qed.
